@@ -1,13 +1,13 @@
 CONSTANTS
   Vals = {"v0", "v1", "v2", "v3"}
-  PowerOf <- GPW
-  ProposerSeq <- GPS
+  PowerOf <- TGPW
+  ProposerSeq <- TGPS
   MaxRound = 2
   InvalidValues = {}
   Weak = {}
-  ValSeq <- GValSeq
+  ValSeq <- TGValSeq
   NParts = 2
-  Weak_NoCatchupCommitParts = TRUE
+  Weak_NoCatchupCommitParts = FALSE
   Weak_SkipPOLPrevotes = FALSE
   Weak_HasVoteNotRecorded = FALSE
   Weak_Maj23QueryOnlyCurrentRound = FALSE
@@ -18,15 +18,13 @@ CONSTANTS
   Weak_NewValidBlockIgnored = FALSE
   Weak_InitMarksPartsHad = FALSE
   Weak_VoteMarkedBeforeRoundCheck = FALSE
-  Code_POLShadowedByCatchupRound = TRUE
+  Code_POLShadowedByCatchupRound = FALSE
   AllowedGaps <- AllGaps
-  NodeMenu <- NVNode
-  PeerMenu <- NVPeer
-  Modes = {"fresh", "live"}
-  EnvBudget = 1
-INIT GInit
-NEXT GNext
-INVARIANTS PeerStateSound GossipComplete
-PROPERTY StepProps
-VIEW GView
+  StrictGaps = {}
+  NodeMenu = {}
+  PeerMenu = {}
+  Modes = {}
+  EnvBudget = 0
+INIT Init
+NEXT Next
 CHECK_DEADLOCK FALSE
